@@ -586,8 +586,9 @@ Proof.
     + j0 HI HS HJ E (set_latch (set_chan c0 {| cbuf := None; cclosed := cclosed (k_chan c0) |} (k_reg c0))
             (inl match ehdr e with Some m => m | None => MdOk 0 end)) [EvTake c e].
       frame_loop Hop E0.
-    + jN HI HS HJ E (loop_exit (set_latch c0 (inr (if rerr s then EConn else EClosed))) (Some (if rerr s then EConn else EClosed)) false None false).
-      frame_loop Hop E0. intros _ Hc. destruct (rerr s); discriminate.
+    + jN HI HS HJ E (loop_exit (set_latch c0 (inr (closed_err s c0))) (Some (closed_err s c0)) false None false).
+      frame_loop Hop E0. intros _ Hc. unfold closed_err, sctx_done in Hc.
+      destruct (s_ctxc c0 || ctx_done (k_ctx c0)) eqn:Ec; [reflexivity|]. destruct (rerr s); discriminate.
   - unfold r_loop_read_ctx in H. open_rule H; getW HJ E; pose proof (cinv_call _ _ _ HI E) as K;
       assert (Hop : k_pc c0 = POpen) by (apply (ki_loop_open _ K); unfold loop_alive; rewrite E0; reflexivity).
     jauto HI HS HJ E. frame_loop Hop E0.
